@@ -115,8 +115,12 @@ class Signal(np.lib.mixins.NDArrayOperatorsMixin):
         if ufunc.nout == 1:
             results = (results,)
 
+        # NumPy hands the call to a subclass instance first, wherever it is
+        # among the inputs; the result takes after the first signal operand.
+        first = next((i for i in inputs if isinstance(i, Signal)), self)
         results = tuple(
-            (type(self).like(self, a) if b is None else b) for a, b in zip(results, out)
+            (type(first).like(first, a) if b is None else b)
+            for a, b in zip(results, out)
         )
 
         return results[0] if len(results) == 1 else results
